@@ -182,7 +182,7 @@ OnRecv(s, c, m) ==
       s2 == IF isuser /\ IsMember(s1, c)
             THEN [s1 EXCEPT !.view = Put(@, c,
                      IF m.kind = "delete" THEN [x \in DOMAIN v0 \ {m.id} |-> v0[x]]
-                     ELSE Put(v0, m.id, [username |-> m.username, perms |-> SetOfSeq(m.perms)]))]
+                     ELSE Put(v0, m.id, [username |-> m.username, perms |-> SetOfSeq(m.perms), data |-> m.data]))]
             ELSE s1
       s2b == IF m.type = "chathistory"
              THEN [s2 EXCEPT !.hrecv = Put(@, c, Append(Get(s2.hrecv, c, <<>>), [id |-> m.id, src |-> m.source, val |-> m.value, seqno |-> m.seqno]))]
@@ -257,5 +257,12 @@ AtEnd(s) ==
                      IN \/ ~(ms \subseteq DOMAIN v)
                         \/ \E x \in ms : v[x].username # Get(s.usr, x, "") \/ v[x].perms # Told(s, x)
                         \/ \E x \in DOMAIN v : x \in DOMAIN s.st /\ ~(x \in ms)}
-  IN IF wrong # {} THEN "C14_view_does_not_converge_to_membership" ELSE "ok"
+      \* what the members believe about a user's data must be the same for all of them (a late
+      \* joiner is told the server's current value, the others built theirs from change events)
+      ms == {c \in DOMAIN s.st : s.st[c] = "member"}
+      differ == \E c1, c2 \in ms : Get(s.grp, c1, "") = Get(s.grp, c2, "")
+                  /\ \E x \in DOMAIN Get(s.view, c1, <<>>) \cap DOMAIN Get(s.view, c2, <<>>) :
+                        s.view[c1][x].data # s.view[c2][x].data
+  IN IF wrong # {} THEN "C14_view_does_not_converge_to_membership"
+     ELSE IF differ THEN "C14_views_disagree_about_a_users_data" ELSE "ok"
 =============================================================================
